@@ -286,3 +286,14 @@ package bgv
 //@   ensures implies(isnil(err), val(opOut.Value[1]) == T * old(val(op0.Value[0])) * old(val(op1.Value[1])) + T * old(val(op0.Value[1])) * old(val(op1.Value[0])))
 //@   ensures implies(isnil(err), val(opOut.Value[2]) == T * old(val(op0.Value[1])) * old(val(op1.Value[1])))
 //@   ensures implies(isnil(err), mexp(opOut.Value[0]) == 0 && mexp(opOut.Value[1]) == 0 && mexp(opOut.Value[2]) == 0)
+
+// A decoder stores what it decodes in the caller's object (C08; finding F41): see /verif/cmd/lvc/fieldordercheck.go
+//@ decodes Parameters.UnmarshalBinary
+//@   property C08
+//
+//@ decodes Parameters.UnmarshalJSON
+//@   property C08
+//
+//@ decodes ParametersLiteral.UnmarshalJSON
+//@   property C08
+//
